@@ -125,14 +125,33 @@ RunCall(c) ==
 (*   [op "delete", n]      delete A[n]                                                         *)
 (*   [op "freeze" | "seal" | "prevent"]                                                         *)
 (*   [op "call", m, args]  a method of Array.prototype                                          *)
+(* 15.4.5.1 steps 3.c-3.d convert the new length twice: ToUint32(Desc.[[Value]]), then         *)
+(* ToNumber(Desc.[[Value]]) for the RangeError test.  Length values are primitives inside      *)
+(* ADefineOwnArr, so for a scripted conversion object the two conversions are performed here    *)
+(* (after [[CanPut]], which converts nothing) and the resulting Number is passed on; a         *)
+(* conversion that throws aborts the step.  Deviation: arrayDefineOwnProperty converts once.    *)
+LenValue(st, v) ==
+    IF v.t # "cobj" THEN Ret(st, v)
+    ELSE LET s1 == ToNum(st, v)                                                 \* 3.c
+         IN  IF Failed(s1) \/ D("D08_length_value_converted_once") THEN s1
+             ELSE ToNum(s1, v)                                                   \* 3.d
+IsLenOfArray(st, n) == n = S_length /\ st.H[3].cls = "Array"
+
 StepOp(st0, a) ==
     LET st == [st0 EXCEPT !.thr = "", !.v = Undef]
-    IN  CASE a.op = "assign" -> Ret(PutQ(st, 3, a.n.s, a.v), a.v)
+    IN  CASE a.op = "assign" ->
+                IF IsLenOfArray(st, a.n.s) /\ a.v.t = "cobj" /\ CanPut(st.H, 3, S_length)
+                THEN (LET s1 == LenValue(st, a.v)
+                      IN  IF Failed(s1) THEN s1 ELSE Ret(PutQ(s1, 3, S_length, s1.v), a.v))
+                ELSE Ret(PutQ(st, 3, a.n.s, a.v), a.v)
           [] a.op = "define" ->
-                (LET r == ADefOwn(st.H, 3, a.n.s, a.d)
-                 IN  IF r.thr # "" THEN Throw(WithH(st, r.H), r.thr)
-                     ELSE IF ~r.ok THEN Throw(WithH(st, r.H), "TypeError")
-                     ELSE WithH(st, r.H))
+                (LET s1 == IF IsLenOfArray(st, a.n.s) /\ a.d.hv THEN LenValue(st, a.d.v) ELSE st
+                     d1 == IF IsLenOfArray(st, a.n.s) /\ a.d.hv /\ ~Failed(s1) THEN [a.d EXCEPT !.v = s1.v] ELSE a.d
+                     r == ADefOwn(s1.H, 3, a.n.s, d1)
+                 IN  IF Failed(s1) THEN s1
+                     ELSE IF r.thr # "" THEN Throw(WithH(s1, r.H), r.thr)
+                     ELSE IF ~r.ok THEN Throw(WithH(s1, r.H), "TypeError")
+                     ELSE Ret(WithH(s1, r.H), Undef))
           [] a.op = "delete" -> (LET r == DeleteOwn(st.H, 3, a.n.s) IN Ret(WithH(st, r.H), BoolV(r.ok)))
           [] a.op = "freeze" -> (LET r == AFreeze(st.H, 3) IN IF r.thr # "" THEN Throw(WithH(st, r.H), r.thr) ELSE WithH(st, r.H))
           [] a.op = "seal" -> (LET r == ASeal(st.H, 3) IN IF r.thr # "" THEN Throw(WithH(st, r.H), r.thr) ELSE WithH(st, r.H))
